@@ -30,6 +30,15 @@ var repoDir = "/repo"
 
 var replayTemplates = []*replayTemplate{
 	{
+		name: "ws_address_race.go.tmpl",
+		match: func(o *Obligation) bool {
+			return o.Kind == "guard.immutable" && o.Func == "(*transport/ws.listener).Address"
+		},
+		run: func(g *Gen, o *Obligation, model map[string]string) (bool, string) {
+			return runReplayArgs("transport/ws", "ws_address_race.go.tmpl", map[string]string{}, "TestZZReplayWsAddressRace", "-race")
+		},
+	},
+	{
 		name: "tlstcp_dialer_keepalive_race.go.tmpl",
 		match: func(o *Obligation) bool {
 			return (o.Kind == "guard.read" || o.Kind == "guard.write") && strings.HasPrefix(o.Func, "(*transport/tlstcp.dialer).") && strings.Contains(o.Name, ":dialer.*d")
